@@ -1822,6 +1822,10 @@ namespace link_layer {
             }
 
             defered_ll_control_pdu_ = write_buffer{ nullptr, 0 };
+
+            // The new parameters are in force now, they belong to the connection event that was just planned
+            // (the instant). That event must not be pulled back to an earlier one by try_event_cancelation().
+            this->disarmable_connection_state_last_latency( 1 );
         }
 
         return result;
